@@ -29,6 +29,11 @@ class InducedSet:
         "Induced set cannot be computed\n"+
         "Line is not connected to a GFA instance\n"+
         "Line: {}".format(self))
+    return self._compute_induced_segments_set([])
+
+  def _compute_induced_segments_set(self, nesting):
+    # nesting: the sets already being resolved (sets may be nested cyclically)
+    nesting.append(self)
     segments_set = list()
     for item in self.items:
       if isinstance(item, str):
@@ -52,9 +57,9 @@ class InducedSet:
           segments_set.append(elem.line)
       elif isinstance(item, gfapy.line.group.Unordered):
         self._check_induced_set_elem_connected(item)
-        subset = item.induced_segments_set
-        assert(subset)
-        for elem in subset:
+        if any(item is group for group in nesting):
+          continue
+        for elem in item._compute_induced_segments_set(nesting):
           segments_set.append(elem)
       elif isinstance(item, gfapy.line.Unknown):
         raise gfapy.RuntimeError(
